@@ -63,6 +63,9 @@ type member struct {
 	cfg  gen.Config
 	root *fam.Spec
 	tag  string // when set, findings on this member are keyed by the scenario: "[tag] construct"
+	// mayFail: the generator may refuse this schema (a loud failure satisfies the property); what is checked is that IF it reports
+	// success the emitted code enforces the schema
+	mayFail bool
 }
 
 // runMember explores a member and hands each world to check; bookkeeping of
@@ -109,7 +112,7 @@ func runMemberOpt(c *core.Ctx, mb member, rules map[string]bool, budget int, siz
 		c.Counts["interpreter_steps"] += w.Steps
 		var issues []fam.Issue
 		issues = append(issues, w.RunIssues()...)
-		if w.Err == nil && w.GenErr != "" {
+		if w.Err == nil && w.GenErr != "" && !mb.mayFail {
 			issues = append(issues, fam.Issue{Rule: "A-GENERR", Construct: "generator rejects a valid schema", Msg: "the generator returned an error for a supported schema: " + w.GenErr})
 		}
 		if w.Err == nil && w.GenErr == "" {
